@@ -242,6 +242,7 @@ var c11Templates = []c11Tmpl{
 	{key: "divide", args: "divide -o div {in}", in: "nt"},
 	{key: "split", args: "split --partition part.txt --out-prefix sp_ {in}", in: "nt"},
 	{key: "extract", args: "extract --coordinates coord.txt --translate -1 -o . {infa}", in: "nt"},
+	{key: "extract gff", args: "extract --coordinates genes.gff --gff -o . {infa}", in: "nt"},
 	{key: "codonalign", args: "codonalign -i aa.fa -f nt.unaligned.fa", in: "codon"},
 	{key: "orf", args: "orf -i orf.fa", in: "orf"},
 	{key: "orf reverse", args: "orf --reverse -i orf.fa", in: "orf"},
@@ -351,6 +352,24 @@ func (c11) Gen(rs uint64, tier string, race bool) interface{} {
 	c.Files["map.in"] = nn[0] + "\tRenamedA\n" + nn[2] + "\tRenamedB\n"
 	l := len(ns[0])
 	c.Files["part.txt"] = fmt.Sprintf("M1,p1=1-%d\nM2,p2=%d-%d\n", l/2, l/2+1, l)
+	{
+		// a GFF file: genes of 3-6 nt with one or two CDS each, two genes sharing a Name, one without a Name
+		var gff strings.Builder
+		names := []string{"geneA", "geneB", "geneA", "", "geneC", ""}
+		for g := 0; g < len(names) && 6*g+6 <= l; g++ {
+			st, en := 6*g+1, 6*g+6
+			attr := fmt.Sprintf("ID=g%d", g)
+			if names[g] != "" {
+				attr += ";Name=" + names[g]
+			}
+			fmt.Fprintf(&gff, "chr\tsim\tgene\t%d\t%d\t.\t%s\t.\t%s\n", st, en, "+-"[g%2:g%2+1], attr)
+			fmt.Fprintf(&gff, "chr\tsim\tCDS\t%d\t%d\t.\t%s\t0\tID=c%da;Parent=g%d\n", st, st+2, "+-"[g%2:g%2+1], g, g)
+			if g%3 != 1 {
+				fmt.Fprintf(&gff, "chr\tsim\tCDS\t%d\t%d\t.\t%s\t0\tID=c%db;Parent=g%d\n", st+3, en, "+-"[g%2:g%2+1], g, g)
+			}
+		}
+		c.Files["genes.gff"] = gff.String()
+	}
 	c.Files["coord.txt"] = fmt.Sprintf("0,7\t3,%d\tg1\n2\t8\tg2\t-\n1\t4\tg3\t+\n", l-1)
 	var cnt strings.Builder
 	for i, nm := range nn {
@@ -628,7 +647,7 @@ type cliCfg struct {
 
 var c11RunSeq int
 
-func (c *C11Case) runCLI(cfg cliCfg, args []string, extra map[string][]byte) *cliResult {
+func (c *C11Case) runCLI(cfg cliCfg, args []string, extra map[string][]byte, left ...map[string][]byte) *cliResult {
 	cli := jobExtra["cli"]
 	if cli == "" {
 		panic("harness: no CLI binary given to the worker")
@@ -647,6 +666,16 @@ func (c *C11Case) runCLI(cfg cliCfg, args []string, extra map[string][]byte) *cl
 	for n, s := range extra {
 		os.WriteFile(filepath.Join(dir, n), s, 0644)
 		inputs[n] = true
+	}
+	// what an earlier execution of the same command line wrote (a re-run in the same directory): not inputs, the
+	// files found after the run are compared like any output
+	for _, m := range left {
+		for n, s := range m {
+			if !inputs[n] && !strings.HasPrefix(n, "(input modified)") {
+				os.MkdirAll(filepath.Dir(filepath.Join(dir, n)), 0755)
+				os.WriteFile(filepath.Join(dir, n), s, 0644)
+			}
+		}
 	}
 	full := append([]string{}, args...)
 	full = append(full, "-t", fmt.Sprint(cfg.threads))
@@ -722,7 +751,14 @@ func (c11) Run(ctx *Ctx, ci interface{}) (o Outcome) {
 			return
 		}
 		a2 := c.runCLI(cfgA, c.Args, nil)
-		b := c.runCLI(cfgB, c.Args, nil)
+		var b *cliResult
+		if c.Seed%3 == 0 && len(a.files) > 0 {
+			// the other configuration runs where the first execution left its files
+			b = c.runCLI(cfgB, c.Args, nil, a.files)
+			o.Add("executions_over_the_files_of_an_earlier_one", 1)
+		} else {
+			b = c.runCLI(cfgB, c.Args, nil)
+		}
 		o.Add("cli_executions", 3)
 		if a.exit != 0 {
 			o.Add("command_failed_exit_nonzero", 1)
